@@ -534,6 +534,11 @@ impl KeyIdMethod {
 	}
 }
 
+/// Checks that a caller-supplied string can be written as an IA5String (ASCII only).
+fn check_ia5(s: &str) -> Result<(), Error> {
+	Ia5String::try_from(s).map(|_| ())
+}
+
 /// Checks that a date can be encoded: `GeneralizedTime` (and the conversion to UTC that
 /// precedes encoding) only covers the UTC years 0 to 9999.
 fn check_time(dt: OffsetDateTime) -> Result<(), Error> {
